@@ -223,6 +223,10 @@ EXC = {'KeyError': KeyError, 'ValueError': ValueError, 'RuntimeError': RuntimeEr
        'TypeError': TypeError, 'ZeroDivisionError': ZeroDivisionError}
 
 
+class BaseBoom(BaseException):
+  """a non-Exception exception (like KeyboardInterrupt, SystemExit, GeneratorExit) raised by a body"""
+
+
 class Machine:
   """Runs a program against a fresh gin."""
 
@@ -393,6 +397,8 @@ class Machine:
 
   def err(self, e):
     cls = type(e).__name__
+    if isinstance(e, BaseBoom):
+      cls = 'KeyError'        # the model has one kind of raising body; which Python class left the block is irrelevant to it
     if isinstance(e, RuntimeError):
       m = re.search(r'not provided in config: \[(.*?)\]', str(e))
       if m:
@@ -418,7 +424,7 @@ class Machine:
     try:
       self._exec_op(op, depth)
       t['exc'] = None
-    except Exception as e:
+    except (Exception, BaseBoom) as e:
       t['exc'] = self.err(e).args[0]
       raise
     finally:
@@ -467,6 +473,8 @@ class Machine:
         for o in op[2]:
           self.exec_op(o, depth + 1)
     elif k == 'raise':
+      if len(op) > 1 and op[1] == 'base':
+        raise BaseBoom('boom')       # leaves every enclosing block like KeyboardInterrupt / SystemExit / GeneratorExit would
       raise KeyError('boom')
     elif k == 'curscope':
       self.emit(list(gin.current_scope()))
@@ -527,7 +535,7 @@ class Machine:
     for op in case['ops']:
       try:
         self.exec_op(op)
-      except Exception as e:  # pylint: disable=broad-except
+      except (Exception, BaseBoom) as e:  # pylint: disable=broad-except
         self.emit(self.err(e))
     return self.obs
 
